@@ -168,6 +168,11 @@ func evalC09(cs *c09Case) (sig, msg string, info c09Info) {
 	if failed >= 0 {
 		switch {
 		case exit == 0:
+			if strings.Contains(chainErr, "reformat \"") {
+				// the step's result cannot be written out as Go; in the
+				// combined run nobody tries to
+				return "failed-step-not-reported:intermediate-text-invalid", fmt.Sprintf("step %d fails on its own (%s) but the combined run exits 0\n%s", failed, strings.TrimSpace(chainErr), show()), info
+			}
 			return "failed-step-not-reported", fmt.Sprintf("step %d fails on its own (%s) but the combined run exits 0\n%s", failed, strings.TrimSpace(chainErr), show()), info
 		case string(combOut) != cs.File:
 			return "failed-step-file-modified", fmt.Sprintf("step %d fails (%s); the combined run reports a failure (%s) but the file was modified:\n%s\n%s", failed, strings.TrimSpace(chainErr), strings.TrimSpace(combErr), trunc(string(combOut), 800), show()), info
@@ -480,6 +485,37 @@ func c09Emptied(rt *rapid.T) *c09Case {
 	return cs
 }
 
+// c09Unprintable: a step leaves code that cannot be written out as Go (a
+// composite literal bare in the header of an if, for or switch), and a later
+// step turns it into something that can. Run on its own the first step fails.
+func c09Unprintable(rt *rapid.T) *c09Case {
+	cs := &c09Case{Family: "synthetic-unprintable"}
+	hdr := rapid.SampledFrom([]string{"if cond(%s) {\n\t}", "for cond(%s) {\n\t}", "switch cond(%s) {\n\t}", "if v := 1; cond(%s) {\n\t\t_ = v\n\t}"}).Draw(rt, "header")
+	lit := rapid.SampledFrom([]string{"T{1}", "T{}", "[]int{1, 2}", "map[string]int{}", "pkg.T{A: 1}"}).Draw(rt, "literal")
+	cs.File = "package p\n\nfunc g() {\n\t" + fmt.Sprintf(hdr, lit) + "\n\tother(1)\n}\n"
+	breaking := rapid.SampledFrom([]string{
+		"@@\nvar x expression\n@@\n-cond(x)\n+x == zero\n",
+		"@@\nvar x expression\n@@\n-cond(x)\n+x.ok\n",
+		"@@\nvar x expression\n@@\n-cond(x)\n+!x\n",
+	}).Draw(rt, "breaking")
+	repairing := rapid.SampledFrom([]string{
+		"@@\nvar x expression\n@@\n-x == zero\n+isZero(x)\n",
+		"@@\nvar x expression\n@@\n-x.ok\n+ok(x)\n",
+		"@@\nvar x expression\n@@\n-!x\n+not(x)\n",
+		"@@\n@@\n-T\n+(T)\n",
+	}).Draw(rt, "repairing")
+	unrelated := "@@\n@@\n-other(1)\n+other(2)\n"
+	cs.Changes = []string{breaking}
+	if rapid.Bool().Draw(rt, "unrelatedBetween") {
+		cs.Changes = append(cs.Changes, unrelated)
+	}
+	cs.Changes = append(cs.Changes, repairing)
+	if rapid.Bool().Draw(rt, "unrelatedFirst") {
+		cs.Changes = append([]string{unrelated}, cs.Changes...)
+	}
+	return cs
+}
+
 var c09Opts = modelOpts{
 	Mine:         gen.MineOpts{MaxHoles: 2, MaxDots: 1},
 	MaxHostLines: 150,
@@ -541,6 +577,9 @@ func TestC09(t *testing.T) {
 				cs = c09Focused(rt)
 			} else if k == 2 {
 				cs = c09Emptied(rt)
+				if rapid.IntRange(0, 3).Draw(rt, "unprintable") == 0 {
+					cs = c09Unprintable(rt)
+				}
 			} else {
 				cs = c09Synthetic(rt)
 			}
